@@ -61,7 +61,7 @@ class MidCircuitWorld(World):
                 "n_shots": rng.choice([1, 1, 7, 200, 200] if not thorough else [1, 7, 200, 2000]),
                 "faults": rng.random() < 0.8, "script_rate": rng.choice([0.2, 0.4, 0.7]),
                 "ctrl_kinds": rng.sample(["dict", "class", "func", "none"], rng.randint(1, 4)),
-                "max_depth": rng.choice([1, 2, 2, 3]), "init_p": rng.choice([0.0, 0.4, 0.8])}
+                "max_depth": rng.choice([1, 2, 2, 3]), "init_p": rng.choice([0.0, 0.4, 0.8]), "wide_p": rng.choice([0.0, 0.04, 0.1])}
 
     def __init__(self, ctx, config=None):
         super().__init__(ctx, config)
@@ -123,6 +123,18 @@ class MidCircuitWorld(World):
         rng, cfg = self.ctx.ops, self.config
         n = rng.randint(1, cfg["max_width"])
         kind = rng.choice(cfg["ctrl_kinds"])
+        if rng.random() < cfg.get("wide_p", 0.0):
+            # wide register: number of measurements + number of qubits >= 11 (two-digit measurement keys)
+            n = rng.randint(10, 11)
+            qs = rng.sample(range(n), 3)
+            gates = D.gen_unitary_gates(rng, n, rng.randint(1, 4), kinds=("one", "par", "c"))
+            gates += [["RY", [qs[0]], None, round(rng.uniform(0.4, 2.7), 4), False], ["CNOT", [qs[1]], [qs[0]], "", False],
+                      ["MEASURE", [qs[0]], None, "", False], ["RX", [qs[2]], None, round(rng.uniform(0.4, 2.7), 4), False]]
+            if rng.random() < 0.5:
+                gates.append(["MEASURE", [qs[2]], None, "", False])
+            op = {"k": rng.choice(["shots", "shots", "desired_shots", "exact"]), "gates": gates, "n": n, "init": None, "ctrl": None,
+                  "save_mid": True, "ret_sv": False, "branch": rng.randrange(64), "zero": False, "wide": True}
+            return op
         gates = self._gen_block(rng, n, cfg["max_depth"], kind, True)
         if not (D.has(gates, "MEASURE") or D.has(gates, "CMEASURE")):
             gates.append(["MEASURE", [rng.randrange(n)], None, "", False])
